@@ -107,17 +107,17 @@ def RunOk (r : Run) : Prop :=
     ∀ e ∈ r.ents, e.inodeRef >>> 16 = first.inodeRef >>> 16 ∧
       -32767 ≤ sdiff32 e.inodeNum r.inodeNumber ∧ sdiff32 e.inodeNum r.inodeNumber ≤ 32767
 
-theorem dirEndGo_runs_ok (cmp : Codec) : ∀ (fuel : Nat) (st : St) (ds : Nat) (ents : List DEnt),
-    ∀ r ∈ (dirEndGo cmp fuel st ds ents).1, RunOk r := by
+theorem dirEndGoM_runs_ok (cmp : Codec) : ∀ (fuel : Nat) (st : St) (ds : Nat) (ents : List DEnt),
+    ∀ r ∈ (dirEndGoM cmp fuel st ds ents).1, RunOk r := by
   intro fuel
   induction fuel with
-  | zero => intro st ds ents r hr; simp [dirEndGo] at hr
+  | zero => intro st ds ents r hr; simp [dirEndGoM] at hr
   | succ f ih =>
     intro st ds ents r hr
     cases ents with
-    | nil => simp [dirEndGo] at hr
+    | nil => simp [dirEndGoM] at hr
     | cons first rest =>
-      simp only [dirEndGo, List.mem_cons] at hr
+      simp only [dirEndGoM, List.mem_cons] at hr
       obtain ⟨h1, h2, h3, h4, _⟩ := conseqCount_spec st.cur.length first rest
       rcases hr with hr | hr
       · subst hr
@@ -131,17 +131,17 @@ theorem dirEndGo_runs_ok (cmp : Codec) : ∀ (fuel : Nat) (st : St) (ds : Nat) (
       · exact ih _ _ _ r hr
 
 /-- nothing is lost or reordered: the runs, concatenated, are the entry list -/
-theorem dirEndGo_flatten (cmp : Codec) : ∀ (fuel : Nat) (st : St) (ds : Nat) (ents : List DEnt), ents.length < fuel →
-    ((dirEndGo cmp fuel st ds ents).1.map (·.ents)).flatten = ents := by
+theorem dirEndGoM_flatten (cmp : Codec) : ∀ (fuel : Nat) (st : St) (ds : Nat) (ents : List DEnt), ents.length < fuel →
+    ((dirEndGoM cmp fuel st ds ents).1.map (·.ents)).flatten = ents := by
   intro fuel
   induction fuel with
   | zero => intro st ds ents h; omega
   | succ f ih =>
     intro st ds ents h
     cases ents with
-    | nil => simp [dirEndGo]
+    | nil => simp [dirEndGoM]
     | cons first rest =>
-      simp only [dirEndGo, List.map_cons, List.flatten_cons]
+      simp only [dirEndGoM, List.map_cons, List.flatten_cons]
       obtain ⟨h1, _, h3, _, _⟩ := conseqCount_spec st.cur.length first rest
       rw [ih]
       · exact List.take_append_drop _ _
@@ -156,19 +156,26 @@ theorem headerBytes_length (c b n : Nat) : (headerBytes c b n).length = sizeofDi
 
 theorem nodeBytes_length (f : Nat) (e : DEnt) : (nodeBytes f e).length = sizeofDirNode := rfl
 
+theorem encodeEnt_eq (f : Nat) (e : DEnt) : encodeEnt f e = nodeBytes f e ++ e.name := rfl
+
+theorem encodeRun_eq (r : Run) :
+    encodeRun r = headerBytes r.ents.length r.startBlock r.inodeNumber ++ (r.ents.map (encodeEnt r.inodeNumber)).flatten := rfl
+
 theorem encodeEnt_length (f : Nat) (e : DEnt) : (encodeEnt f e).length = entSize e := by
-  simp [encodeEnt, nodeBytes_length, entSize]
+  rw [encodeEnt_eq, List.length_append, nodeBytes_length]; rfl
 
 theorem runChunks_flatten (r : Run) : (runChunks r).flatten = encodeRun r := by
-  unfold runChunks encodeRun
+  rw [encodeRun_eq]
+  unfold runChunks
   simp only [List.flatten_cons]
   congr 1
   induction r.ents with
   | nil => rfl
-  | cons e es ih => simp [encodeEnt, ih]
+  | cons e es ih => simp [encodeEnt_eq, ih]
 
 theorem encodeRun_length (r : Run) : (encodeRun r).length = runBytes r.ents := by
-  unfold encodeRun runBytes
+  rw [encodeRun_eq]
+  unfold runBytes
   rw [List.length_append, headerBytes_length]
   congr 1
   induction r.ents with
@@ -182,23 +189,23 @@ blocks it flushed before, the bytes appended are the encoded runs, and for the `
 `dir_size` at that moment = `ds` + the bytes of the runs before it; `block` is the disk size of exactly the blocks
 that precede the metadata block in which the header's first byte lies.
 -/
-theorem dirEndGo_pos (cmp : Codec) : ∀ (fuel : Nat) (st : St) (ds : Nat) (ents : List DEnt), WF cmp st → ents.length < fuel →
-    WF cmp (dirEndGo cmp fuel st ds ents).2 ∧ Ext st (dirEndGo cmp fuel st ds ents).2 ∧
-    stream (dirEndGo cmp fuel st ds ents).2 = stream st ++ ((dirEndGo cmp fuel st ds ents).1.map encodeRun).flatten ∧
-    ∀ (k : Nat) (r : Run), (dirEndGo cmp fuel st ds ents).1[k]? = some r →
-      r.index = ds + ((((dirEndGo cmp fuel st ds ents).1.take k).map encodeRun).flatten).length ∧
-      ((stream st).length + (r.index - ds)) / metaBlockSize ≤ (dirEndGo cmp fuel st ds ents).2.out.length ∧
-      r.block = outBytes ((dirEndGo cmp fuel st ds ents).2.out.take (((stream st).length + (r.index - ds)) / metaBlockSize)) := by
+theorem dirEndGoM_pos (cmp : Codec) : ∀ (fuel : Nat) (st : St) (ds : Nat) (ents : List DEnt), WF cmp st → ents.length < fuel →
+    WF cmp (dirEndGoM cmp fuel st ds ents).2 ∧ Ext st (dirEndGoM cmp fuel st ds ents).2 ∧
+    stream (dirEndGoM cmp fuel st ds ents).2 = stream st ++ ((dirEndGoM cmp fuel st ds ents).1.map encodeRun).flatten ∧
+    ∀ (k : Nat) (r : Run), (dirEndGoM cmp fuel st ds ents).1[k]? = some r →
+      r.index = ds + ((((dirEndGoM cmp fuel st ds ents).1.take k).map encodeRun).flatten).length ∧
+      ((stream st).length + (r.index - ds)) / metaBlockSize ≤ (dirEndGoM cmp fuel st ds ents).2.out.length ∧
+      r.block = outBytes ((dirEndGoM cmp fuel st ds ents).2.out.take (((stream st).length + (r.index - ds)) / metaBlockSize)) := by
   intro fuel
   induction fuel with
   | zero => intro st ds ents _ h; omega
   | succ f ih =>
     intro st ds ents hwf h
     cases ents with
-    | nil => simp [dirEndGo, hwf, Ext.refl]
+    | nil => simp [dirEndGoM, hwf, Ext.refl]
     | cons first rest =>
       obtain ⟨c1, _, c3, _, _⟩ := conseqCount_spec st.cur.length first rest
-      simp only [dirEndGo]
+      simp only [dirEndGoM]
       generalize hr0 : (⟨(first :: rest).take (conseqCount st.cur.length (first :: rest)), (first.inodeRef >>> 16) % 4294967296,
         first.inodeNum, ds, st.blockOffset⟩ : Run) = r0
       have hr0e : r0.ents = (first :: rest).take (conseqCount st.cur.length (first :: rest)) := by rw [← hr0]
@@ -211,7 +218,7 @@ theorem dirEndGo_pos (cmp : Codec) : ∀ (fuel : Nat) (st : St) (ds : Nat) (ents
         ((first :: rest).drop (conseqCount st.cur.length (first :: rest))) w1
         (by simp only [List.length_drop]; simp only [List.length_cons] at h c3 ⊢; omega)
       rw [← hr0e] at i1 i2 i3 i4 ⊢
-      generalize dirEndGo cmp f st' (ds + runBytes r0.ents)
+      generalize dirEndGoM cmp f st' (ds + runBytes r0.ents)
         ((first :: rest).drop (conseqCount st.cur.length (first :: rest))) = next at i1 i2 i3 i4 ⊢
       refine ⟨i1, Ext.trans w2 i2, ?_, ?_⟩
       · rw [i3, w3]; simp [List.append_assoc]
@@ -239,6 +246,47 @@ theorem dirEndGo_pos (cmp : Codec) : ∀ (fuel : Nat) (st : St) (ds : Nat) (ents
           rw [j1]
           simp only [List.take_succ_cons, List.map_cons, List.flatten_cons, List.length_append, encodeRun_length]
           omega
+
+/-! #### the same two facts for the coarser model `dirEnd blkCost` (users: C01) -/
+
+theorem dirEndGo_runs_ok (c : Nat) : ∀ (fuel blk off ds : Nat) (ents : List DEnt),
+    ∀ r ∈ dirEndGo c fuel blk off ds ents, RunOk r := by
+  intro fuel
+  induction fuel with
+  | zero => intro blk off ds ents r hr; simp [dirEndGo] at hr
+  | succ f ih =>
+    intro blk off ds ents r hr
+    cases ents with
+    | nil => simp [dirEndGo] at hr
+    | cons first rest =>
+      simp only [dirEndGo, List.mem_cons] at hr
+      obtain ⟨h1, h2, h3, h4, _⟩ := conseqCount_spec off first rest
+      rcases hr with hr | hr
+      · subst hr
+        obtain ⟨n, hn⟩ : ∃ n, conseqCount off (first :: rest) = n + 1 := ⟨conseqCount off (first :: rest) - 1, by omega⟩
+        refine ⟨first, rest.take n, ?_, ?_, rfl, rfl, ?_⟩
+        · simp [hn]
+        · simp only [List.length_take]; omega
+        · intro e he
+          exact h4 e he
+      · exact ih _ _ _ _ r hr
+
+/-- nothing is lost or reordered: the runs, concatenated, are the entry list -/
+theorem dirEndGo_flatten (c : Nat) : ∀ (fuel blk off ds : Nat) (ents : List DEnt), ents.length < fuel →
+    ((dirEndGo c fuel blk off ds ents).map (·.ents)).flatten = ents := by
+  intro fuel
+  induction fuel with
+  | zero => intro blk off ds ents h; omega
+  | succ f ih =>
+    intro blk off ds ents h
+    cases ents with
+    | nil => simp [dirEndGo]
+    | cons first rest =>
+      simp only [dirEndGo, List.map_cons, List.flatten_cons]
+      obtain ⟨h1, _, h3, _, _⟩ := conseqCount_spec off first rest
+      rw [ih]
+      · exact List.take_append_drop _ _
+      · simp only [List.length_drop]; simp only [List.length_cons] at h h3 ⊢; omega
 
 /-- the 16-bit field written for an accepted entry decodes (as s16, added to the header's number) to the
 entry's inode number (in the reader's 32-bit arithmetic): "inode-number deltas fit in 16 bits" -/
@@ -356,5 +404,71 @@ theorem exportOk_fold (ref : Nat → Nat) : ∀ (adds L : List (Nat × Nat)) (t 
     have := ih (L ++ [a]) _ (exportOk_step ref L t a h (ha a List.mem_cons_self).1 (ha a List.mem_cons_self).2)
       (fun b hb => ha b (List.mem_cons_of_mem _ hb))
     simpa [List.append_assoc] using this
+
+/-! ### the coarser `dirEnd blkCost` is `dirEndM` for a compressor that never shrinks -/
+
+open Sqfs.MetaWriter in
+/-- under a compressor that never shrinks every flushed block occupies 8192 + 2 bytes -/
+theorem raw_outBytes (st : St) (hi : Inv (fun _ => none) st) : outBytes st.out = 8194 * st.out.length := by
+  have h : ∀ (bs : List Block), (∀ b ∈ bs, b.raw.length = metaBlockSize) → (∀ b ∈ bs, Made (fun _ => none) b) →
+      outBytes bs = 8194 * bs.length := by
+    intro bs
+    induction bs with
+    | nil => intro _ _; rfl
+    | cons b bs ih =>
+      intro hf hm
+      rw [outBytes_cons, ih (fun x hx => hf x (List.mem_cons_of_mem _ hx)) (fun x hx => hm x (List.mem_cons_of_mem _ hx))]
+      have hb := hm b List.mem_cons_self
+      have hl := hf b List.mem_cons_self
+      have : b.stored = b.raw := by
+        cases hc : b.compressed with
+        | false => exact hb.2 hc
+        | true => have := (hb.1 hc).1; simp at this
+      rw [this, hl, mb_eq, List.length_cons]; omega
+  exact h st.out hi.full hi.made
+
+open Sqfs.MetaWriter in
+theorem dirEndGo_eq_dirEndGoM : ∀ (fuel : Nat) (st : St) (ds : Nat) (ents : List DEnt), WF (fun _ => none) st →
+    dirEndGo 8194 fuel st.blockOffset st.cur.length ds ents = (dirEndGoM (fun _ => none) fuel st ds ents).1 := by
+  intro fuel
+  induction fuel with
+  | zero => intro st ds ents _; rfl
+  | succ f ih =>
+    intro st ds ents hwf
+    cases ents with
+    | nil => rfl
+    | cons first rest =>
+      simp only [dirEndGo, dirEndGoM]
+      generalize hr0 : (⟨(first :: rest).take (conseqCount st.cur.length (first :: rest)), (first.inodeRef >>> 16) % 4294967296,
+        first.inodeNum, ds, st.blockOffset⟩ : Run) = r0
+      have hr0e : r0.ents = (first :: rest).take (conseqCount st.cur.length (first :: rest)) := by rw [← hr0]
+      obtain ⟨w1, _, w3⟩ := foldl_append_wf (fun _ => none) (runChunks r0) st hwf
+      rw [runChunks_flatten] at w3
+      -- position after the run
+      have hpos : advance 8194 st.blockOffset st.cur.length (runBytes r0.ents) =
+          (((runChunks r0).foldl (append (fun _ => none)) st).blockOffset, ((runChunks r0).foldl (append (fun _ => none)) st).cur.length) := by
+        generalize (runChunks r0).foldl (append (fun _ => none)) st = st' at w1 w3
+        have hl : (stream st').length = (stream st).length + runBytes r0.ents := by
+          rw [w3, List.length_append, encodeRun_length]
+        have a1 := hwf.blocks; have a2 := hwf.offset
+        have b1 := w1.blocks; have b2 := w1.offset
+        have c1 := raw_outBytes st hwf.inv; have c2 := raw_outBytes st' w1.inv
+        have d1 : st.blockOffset = outBytes st.out := hwf.off
+        have d2 : st'.blockOffset = outBytes st'.out := w1.off
+        have hs := inv_stream_length _ st hwf.inv
+        unfold advance
+        rw [mb_eq] at *
+        refine Prod.ext ?_ ?_
+        · simp only; rw [d2, c2, b1, hl, d1, c1, a1]; omega
+        · simp only; rw [b2, hl, a2]; omega
+      rw [← hr0e, hpos]
+      simp only
+      rw [ih _ _ _ w1]
+
+/-- `dirEnd 8194 blk off` (the model C01 builds on) is the run list of `dirEndM` on any well-formed meta writer at
+position `(blk, off)` whose compressor never shrinks -/
+theorem dirEnd_eq_dirEndM (st : MetaWriter.St) (ents : List DEnt) (hwf : MetaWriter.WF (fun _ => none) st) :
+    dirEnd 8194 st.blockOffset st.cur.length ents = (dirEndM (fun _ => none) st ents).1 :=
+  dirEndGo_eq_dirEndGoM _ st 0 ents hwf
 
 end Sqfs.DirWriter
